@@ -76,6 +76,8 @@ pub struct GraphOpts {
     pub twin_start: bool,
     /// explicit calls of a first transaction by replica 0 that every replica then merges
     pub base_calls: Vec<serde_json::Value>,
+    /// closing historical reads: 0 = none, n = up to n antichains per replica (singletons and pairs)
+    pub readat: usize,
 }
 
 pub const W_DEFAULT: [usize; 10] = [34, 38, 46, 56, 78, 84, 88, 91, 95, 98];
@@ -196,6 +198,30 @@ pub fn graph_scenario(idx: usize, rng: &mut Rng, o: &GraphOpts, family: &str) ->
         }
         if next_actor > 17 {
             break;
+        }
+    }
+    // closing historical reads at every single change and at pairs of concurrent changes
+    if o.readat > 0 {
+        for r in 0..w.n() {
+            let app = applied_of(&w, r);
+            let mut sets: Vec<Vec<String>> = app.iter().map(|h| vec![h.clone()]).collect();
+            for i in 0..app.len() {
+                for j in (i + 1)..app.len() {
+                    let a = ancestors(&w, &[app[i].clone()]);
+                    let b = ancestors(&w, &[app[j].clone()]);
+                    if !a.contains(&app[j]) && !b.contains(&app[i]) {
+                        sets.push(vec![app[i].clone(), app[j].clone()]);
+                    }
+                }
+            }
+            rng.shuffle(&mut sets);
+            for hs in sets.into_iter().take(o.readat) {
+                if w.dead {
+                    break;
+                }
+                let heads: Vec<ChangeHash> = hs.iter().map(|h| w.known[h].hash()).collect();
+                w.probe_readat(r, &heads);
+            }
         }
     }
     // closing probes on every replica
